@@ -21,7 +21,7 @@ def run(c):
         raise vlib.ToolError("Concurrency.tla violates its own properties (spec bug):\n" + vlib.tail(r["out"]))
     c.add_model(r, "Concurrency.tla Threads=%s x 2 calls x 3 once-cells: every Invoke sees an initialised pointer, initialiser runs exclusively, results schedule-free, termination under weak fairness" % threads)
     # (2a) schedules drawn by TLC from the composition model System.tla (spec -> impl), replayed on real instances
-    nsched = 120 if c.thorough else 25
+    nsched = 400 if c.thorough else 25
     cfg2 = os.path.join(wd, "System.cfg")
     open(cfg2, "w").write("CONSTANTS\n NC = 3\n NH = 4\n DEPTH = %d\nSPECIFICATION Spec\nCHECK_DEADLOCK FALSE\nINVARIANT Emit\nPROPERTY Independent\n" % (60 if c.thorough else 40))
     rs = vlib.run_tlc("System", cfg=cfg2, workers=1, timeout=1200, extra=["-simulate", "num=%d" % nsched, "-depth", "70", "-seed", str(c.seed)], tag="system")
@@ -63,7 +63,7 @@ def run(c):
         c.add_events([e for e in recs if e["ev"] not in ("sys", "ref")], key=lambda e: {k: v for k, v in e.items() if k != "k"}, sample=1)
     # (3) cold processes, many threads: first calls into every algorithm
     binary = vlib.build("std-rel")
-    nproc = 1200 if c.thorough else 160
+    nproc = 4000 if c.thorough else 160
     counts = [2, 3, 4, 8, 16, 32, 64]
     distinct = {}
     total = 0
